@@ -1,4 +1,4 @@
-import EmsModel.Lemmas.Cli
+import EmsModel.Lemmas.CliRe
 import EmsModel.Gen.Tables
 /-!
 # C20 — command line tools compute exactly what the library computes
@@ -71,6 +71,30 @@ theorem bounds_chars (s : List Char) (b : Bounds) (h : IsBounds s b) :
   exact all_append (all_append (all_append (all_append (all_append (all_append (all_append
     (all_append (all_append (A h1) (B hw1)) (C hw2)) (A h2)) (B hw3)) (C hw4)) (A h3)) (B hw5))
     (C hw6)) (A h4)
+
+/-! ## Tie to the live regular expression -/
+
+/-- The syntax tree `boundsAst` is spelled, in Python's `re` syntax, exactly as the pattern
+text of the live `emsarray.cli.utils.bounds_re` (regenerated into `Ems.Gen.boundsRe` on every
+run), with the same flags, and it obeys the precedence discipline that makes the spelling
+unambiguous.  Any edit of the regular expression breaks this theorem. -/
+theorem pattern_text :
+    boundsAst.pattern = Ems.Gen.boundsRe ∧ boundsFlags = Ems.Gen.boundsReFlags
+    ∧ Re.wf true boundsAst = true := by
+  decide +kernel
+
+/-- The language of that tree is exactly the grammar of `parseBounds_iff`: a text matches the
+pattern in full iff it is four numerals separated by commas with optional blanks. -/
+theorem pattern_language (s : List Char) :
+    Re.Matches boundsAst s ↔ (parseBounds s).isSome = true := by
+  rw [boundsAst_iff]
+  constructor
+  · rintro ⟨b, h⟩
+    simp [(parseBounds_iff s b).mpr h]
+  · intro h
+    cases hp : parseBounds s with
+    | none => simp [hp] at h
+    | some b => exact ⟨b, (parseBounds_iff s b).mp hp⟩
 
 /-! ## `geometry_argument`: bounds, else JSON, else file, else usage error -/
 
